@@ -137,6 +137,15 @@ func gen(t *rapid.T) Case {
 				}
 			}
 			h = randCase(t, sb.String())
+			if dots := strings.Count(h, "."); dots > 0 && rapid.IntRange(0, 5).Draw(t, "dotMiss") == 0 {
+				k := rapid.IntRange(1, dots).Draw(t, "dotIdx")
+				repl := rapid.SampledFrom([]string{"-", "x", "..", ""}).Draw(t, "dotRepl")
+				idx := -1
+				for j := 0; j < k; j++ {
+					idx += 1 + strings.Index(h[idx+1:], ".")
+				}
+				h = h[:idx] + repl + h[idx+1:]
+			}
 			switch rapid.IntRange(0, 7).Draw(t, "hport") {
 			case 0:
 				h += ":80"
